@@ -31,6 +31,7 @@ type c13member struct {
 	retN                   int
 	ackPos                 map[int]uint64
 	ackInOpen              map[int]uint64
+	savesAtClose           int
 	endBeforeStop          bool // a stream ended (transiently) after Close() was called and before the stream stop began
 	nondocPos              map[int]uint64
 	inAck                  map[int]bool
@@ -73,6 +74,7 @@ func checkC13Rules(run *Run, res *Result) {
 	fileAfterStop := map[int]int{} // member -> the checkpoint file was rewritten after the stream had been stopped
 	streamClosedWindow := map[int]bool{}
 	opening := map[int]bool{}
+	openCommits := map[int]int{}
 	bound := cfg.CkptTimeout + 75_000_000_000
 	if cfg.Version[0] < 5 || cfg.Version[0] == 5 && cfg.Version[1] < 5 {
 		bound += int64(cfg.NVb) * 60_000_000_000
@@ -220,11 +222,15 @@ func checkC13Rules(run *Run, res *Result) {
 				pendingCkpt[e.M]--
 			}
 		case journal.KCall:
+			if e.S == "Commit" || e.S == "CommitInside" {
+				openCommits[e.M]++
+			}
 			if e.S != "Close" {
 				continue
 			}
 			mm := get(e.M)
 			mm.closeN, mm.closeT = e.N, e.T
+			mm.savesAtClose = openCommits[e.M]
 			mm.closeInRebalance = mm.rebalancing
 			switch {
 			case mm.rebalancing && streamClosedWindow[e.M]:
@@ -239,6 +245,9 @@ func checkC13Rules(run *Run, res *Result) {
 				res.probe("close:idle")
 			}
 		case journal.KRet:
+			if (e.S == "Commit" || e.S == "CommitInside") && openCommits[e.M] > 0 {
+				openCommits[e.M]--
+			}
 			if e.S != "Start" {
 				continue
 			}
@@ -252,7 +261,9 @@ func checkC13Rules(run *Run, res *Result) {
 			if lastConsEnd[e.M] > from {
 				from = lastConsEnd[e.M] // the consumer's own ConsumeEvent was still running: its duration is not the library's
 			}
-			if e.T-from > bound {
+			// saves queue behind one another on the save lock and each may run into its timeout: every Commit
+			// still in flight when Close() was called adds one checkpoint timeout to the bound
+			if e.T-from > bound+int64(mm.savesAtClose)*cfg.CkptTimeout {
 				res.violate("C13", "R1-shutdown-too-slow", e.N, "plain", "member %d: Start() returned %s after Close() was called and the last running ConsumeEvent had returned (bound %s)", e.M, fmtDur(e.T-from), fmtDur(bound))
 			}
 			if cfg.CkptType == "auto" && !cfg.ReadOnly && !anyFault {
@@ -314,7 +325,7 @@ func checkC13Rules(run *Run, res *Result) {
 		}
 		if !mm.closed && run.Ended {
 			last := run.Evs[len(run.Evs)-1].T
-			if last-mm.closeT > bound {
+			if last-mm.closeT > bound+int64(mm.savesAtClose)*cfg.CkptTimeout {
 				sig := "plain"
 				if mm.closeInRebalance {
 					sig = "close-during-rebalance-window"
